@@ -1159,7 +1159,8 @@ stringdecl(struct expr *expr)
 	mapkey(&key, expr->u.string.data, expr->type->size);
 	entry = mapput(&strings, &key);
 	d = *entry;
-	if (!d) {
+	/* a literal with the same bytes but a wider element type needs a stricter alignment */
+	if (!d || d->u.obj.align < expr->type->align) {
 		d = mkdecl("string", DECLOBJECT, expr->type, QUALNONE, LINKNONE);
 		d->value = mkglobal(d);
 		emitdata(d, mkinit(0, expr->type->size, (struct bitfield){0}, expr));
